@@ -26,6 +26,13 @@ CLAIMED = {
             "parent, every extracted range equals the documented one (float range incl. NaN), Verified<T> is only "
             "constructed on the Ok edge of verify() or in an unsafe fn, and six violating client programs fail to "
             "compile (twins compile). Decides 'accepts iff in range'; not 'accepted configs never panic'.", "4/C07"),
+    "C16": ("CONSTARG + MPT + operand dataflow on the CRC verification sites; ERRDISC on nom::Err; PANICSITE "
+            "enumeration from parser::stream with a per-site SAFE table",
+            "CRC-8/CRC-16 verification is shown to be unconditional on the stream path, on every Ok path, an "
+            "equality of parsed and computed value, spanning the whole header/frame, with degree-8/16 generators "
+            "(so every burst <= 8/16 bits is detected); all explicit panic constructs reachable from the stream "
+            "parser are enumerated and individually discharged; implicit (arithmetic/index) panics are not decided.",
+            "4/C16"),
 }
 
 NA = {
